@@ -21,7 +21,7 @@ RULE = ("E1: (a,b) 10 codes x all option subsets of size <= 3 over 22 option ite
         "of ciphertext and OSCORE option, field-level edits (PIV +-1, PIV length, KID, KID context, flag bits), each followed by the genuine "
         "message on the same recipient; foreign contexts (other secret / salt / ID context, absent vs empty ID context), over "
         "sender/recipient ID lengths 0-7 x ID context {none, empty, 8 bytes} x 9 sequence numbers up to 2^40-2 (x 5 algorithms in the "
-        "thorough tier; two configurations per algorithm in the quick tier); (d2) the server-side choice of the context from a credentials map holding four ID contexts (absent, empty, two values) in every order, for senders of each of them and of an unknown one; (e) the 4.01 + Echo challenge after a loss of replay state never re-uses a nonce; distinct = distinct (family, shape, outcome)")
+        "thorough tier; two configurations per algorithm in the quick tier); (d2) the server-side choice of the context from a credentials map holding four ID contexts (absent, empty, two values) in every order, for senders of each of them and of an unknown one; (d3) the client's OSCORE transport against the server's site wrapper over the virtual network: 1-2 requests, an observation with 3 notifications, initialised and lost replay window (Echo recovery), two concurrent responses swapped by an attacker; (e) the 4.01 + Echo challenge after a loss of replay state never re-uses a nonce; distinct = distinct (family, shape, outcome)")
 ASSUMPTIONS = [
     "cbor2 / cryptography / filelock are the stand-ins of /verif/shims (OpenSSL libcrypto through ctypes), bound to RFC 3610, NIST GCM, "
     "RFC 8439, RFC 5869, RFC 8949 and RFC 8613 appendix C vectors at start-up; nothing is claimed about the real packages",
@@ -570,6 +570,149 @@ def context_selection(res, order, sent_idc):
     res.transitions += 1
 
 
+# ------------------------------------------------------------------------------------------ through the transports
+# The layer right above protect / unprotect on both sides: the client's OSCORE transport (aiocoap.transports.oscore, which keeps
+# the request identifiers for responses, Echo retries and notifications) against the server's site wrapper
+# (aiocoap.oscore_sitewrapper), both real, over the virtual network.  What the application gets is what the server's resource
+# produced for exactly that request - also after an Echo recovery, for every notification of an observation, and with an
+# attacker on the path who swaps the (unauthenticated) tokens and message IDs of two responses.
+
+T_CLI = ("2001:db8::c", 40000)
+T_SRV = ("2001:db8::1", 5683)
+
+
+def transport_run(res, scenario, lost_window, attack):
+    import asyncio
+    from ..world import World
+    from aiocoap import resource, GET, error
+    from aiocoap.credentials import CredentialsMap
+    from aiocoap.oscore_sitewrapper import OscoreSiteWrapper
+    from aiocoap.transports.oscore import TransportOSCORE, OSCOREAddress
+    case = {"family": "transport", "scenario": scenario, "lost_window": lost_window, "attack": attack}
+    res.evaluations += 1
+    w = World()
+    try:
+        class R(resource.Resource):
+            async def render_get(self, request):
+                return Message(payload=b"R|" + "&".join(request.opt.uri_query).encode())
+
+        class O(resource.ObservableResource):
+            n = 0
+
+            async def render_get(self, request):
+                return Message(payload=b"N%d|" % self.n + "&".join(request.opt.uri_query).encode())
+        site = resource.Site()
+        site.add_resource(["r"], R())
+        obs = O()
+        site.add_resource(["o"], obs)
+        sv = make(b"\x02", b"\x01", None)
+        cl = make(b"\x01", b"\x02", None)
+        if lost_window:
+            sv.recipient_replay_window = o.ReplayWindow(32, lambda: None)      # uninitialised: state lost
+            sv.echo_recovery = b"echo-of-this-process"
+        cm = CredentialsMap()
+        cm[":sv"] = sv
+        w.add_context("srv", *T_SRV, site=OscoreSiteWrapper(site, cm))
+        cli = w.add_context("cli", *T_CLI)
+        cli.ctx.request_interfaces.insert(0, TransportOSCORE(cli.ctx, cli.ctx))
+
+        def ask(path, q, observe=False):
+            m = Message(code=GET, uri_path=[path], uri_query=["n=%d" % q])
+            if observe:
+                m.opt.observe = 0
+            m.remote = OSCOREAddress(cl, cli.remote(T_SRV))
+            return cli.ctx.request(m)
+
+        def pump(limit=60):
+            w.loop.settle()
+            for _ in range(limit):
+                if w.pool:
+                    w.deliver(w.pool[0])
+                elif w.loop.next_timer() is not None and w.loop.next_timer() < w.loop.time() + 5.0:
+                    w.loop.fire_next_timer()
+                else:
+                    break
+
+        def outcome(f):
+            if not f.done():
+                return "pending"
+            if f.cancelled():
+                return "cancelled"
+            if f.exception() is not None:
+                return "error:" + type(f.exception()).__name__
+            return bytes(f.result().payload)
+        got, want = {}, {}
+        if scenario in ("one", "two-sequential", "two-concurrent"):
+            if scenario == "one":
+                r1 = ask("r", 1)
+                pump()
+                got["q1"], want["q1"] = outcome(r1.response), b"R|n=1"
+            elif scenario == "two-sequential":
+                r1 = ask("r", 1)
+                pump()
+                r2 = ask("r", 2)
+                pump()
+                got, want = {"q1": outcome(r1.response), "q2": outcome(r2.response)}, {"q1": b"R|n=1", "q2": b"R|n=2"}
+            else:
+                r1, r2 = ask("r", 1), ask("r", 2)
+                w.loop.settle()
+                # both requests reach the server, both responses are on their way back
+                for dg in [d for d in w.pool if d.dst == T_SRV]:
+                    w.deliver(dg)
+                if attack == "swap":
+                    back = [d for d in w.pool if d.dst == T_CLI and d.data[1] >= 64]
+                    if len(back) == 2:
+                        a, b = back
+                        tkl_a, tkl_b = a.data[0] & 15, b.data[0] & 15
+                        if tkl_a == tkl_b:
+                            # token and message ID are outside the protection: the attacker exchanges them
+                            ha, hb = a.data[:1] + a.data[1:2] + b.data[2:4 + tkl_b], b.data[:1] + b.data[1:2] + a.data[2:4 + tkl_a]
+                            a.data, b.data = ha + a.data[4 + tkl_a:], hb + b.data[4 + tkl_b:]
+                pump()
+                got = {"q1": outcome(r1.response), "q2": outcome(r2.response)}
+                want = {"q1": b"R|n=1", "q2": b"R|n=2"}
+                if attack == "swap":
+                    # neither request may be handed the other one's answer; how it fails is not this property's subject
+                    for k, other in (("q1", b"R|n=2"), ("q2", b"R|n=1")):
+                        if got[k] == other:
+                            res.violate(Violation("response-bound-to-other-request", "never the answer to the other request", got[k], "transports/oscore.py:_request",
+                                                  case, key="swap"))
+                    got = want = {}
+        else:
+            # an observation: the registration, then three notifications
+            r1 = ask("o", 1, observe=True)
+            seen = []
+            errs = []
+            r1.observation.register_callback(lambda m: seen.append(bytes(m.payload)))
+            r1.observation.register_errback(lambda e: errs.append(type(e).__name__))
+            pump()
+            for k in (1, 2, 3):
+                obs.n = k
+                obs.updated_state()
+                w.loop.settle()
+                pump()
+            got = {"first": outcome(r1.response), "notifications": seen, "errors": errs}
+            want = {"first": b"N0|n=1", "notifications": [b"N1|n=1", b"N2|n=1", b"N3|n=1"], "errors": []}
+        if got != want:
+            res.violate(Violation("transport-roundtrip", core.jsonable(want), core.jsonable(got), "transports/oscore.py:_request", case, trace=w.trace[-30:],
+                                  key="%s%s" % (scenario, ":echo" if lost_window else "")))
+        for msg, e in w.loop_exceptions():
+            res.violate(Violation("loop-exception", "none", core.exc_desc(e) if e else msg, core.site_of(e) if e else "loop", case,
+                                  key="transport:" + (type(e).__name__ if e else msg[:40])))
+        # nothing of the inner messages is on the wire in the clear
+        for d in w.sent:
+            if b"n=1" in d.data or b"n=2" in d.data or b"R|" in d.data or b"|n" in d.data:
+                res.violate(Violation("inner-data-on-the-wire", "only the protected form", d.data.hex(), "transports/oscore.py", case, key="transport-leak"))
+                break
+        res.traces += 1
+        res.transitions += len(w.sent)
+        res.signatures.add(core.digest(("transport", scenario, lost_window, attack)))
+        res.states.add(core.digest(("transport", scenario, lost_window, attack, core.jsonable(got))))
+        res.outcomes.add(core.digest(("transport", core.jsonable(got) == core.jsonable(want))))
+    finally:
+        w.dispose()
+
+
 ALGS = ["AES-CCM-16-64-128", "AES-CCM-16-128-128", "AES-CCM-64-64-128", "A128GCM", "ChaCha20/Poly1305",
         # the rest of the AEAD algorithms the library registers (two configurations each in both tiers)
         "AES-CCM-16-64-256", "AES-CCM-64-64-256", "AES-CCM-16-128-256", "AES-CCM-64-128-128", "AES-CCM-64-128-256", "A192GCM", "A256GCM"]
@@ -600,6 +743,10 @@ def job(arg):
         for nreq in range(1, 13):
             for start in (1, 10):
                 crash_binding(res, nreq, start)
+        for scenario in ("one", "two-sequential", "two-concurrent", "observe"):
+            for lost in (False, True):
+                for attack in (None, "swap") if scenario == "two-concurrent" else (None,):
+                    transport_run(res, scenario, lost, attack)
         for order in itertools.permutations(range(len(IDCS))):
             for sent in IDCS + (b"unknown!",):
                 context_selection(res, order, sent)
@@ -657,6 +804,8 @@ def replay(case, scenario, seed):
         binding(res, case["own_piv"])
     elif fam == "echo-challenge":
         echo_challenge(res, case["alg"])
+    elif fam == "transport":
+        transport_run(res, case["scenario"], case["lost_window"], case["attack"])
     elif fam == "context-selection":
         context_selection(res, tuple(case["order"]), case["sent_idc"])
     elif fam == "crash-binding":
